@@ -192,57 +192,83 @@ namespace ExpectCalc
 open GoblVerif.Generated.Calc
 
 theorem calls_calculate_as_modelled : calls_calculate =
-    ["RegimeDef", "IsZero", "getIssueDate", "setIssueDate", "TodayIn", "TimeLocation", "getValueDate", "getIssueDate", "getCurrency", "Def", "getCurrency", "New", "setCurrency", "getCurrency", "getTotals", "new", "Zero", "Def", "reset", "getTax", "GetRoundingRule", "HasTags", "applyCustomerRates", "calculateComplements", "getComplements", "calculateOrgDocumentRefs", "getPreceding", "calculateLines", "getLines", "getExchangeRates", "calculateLineSum", "getLines", "calculateDiscounts", "getDiscounts", "calculateDiscountSum", "getDiscounts", "Subtract", "calculateCharges", "getCharges", "calculateChargeSum", "getCharges", "Add", "make", "getLines", "append", "getDiscounts", "append", "getCharges", "append", "len", "setTotals", "new", "getCurrency", "GetCountry", "GetTags", "Calculate", "Category", "PreciseAmount", "Subtract", "PreciseSum", "Add", "Add", "len", "getPaymentDetails", "calculateAdvances", "totalAdvance", "Subtract", "CalculateDues", "roundLines", "getLines", "roundDiscounts", "getDiscounts", "roundCharges", "getCharges", "round", "setTotals"] := by decide
+    ["RegimeDef", "IsZero", "getIssueDate", "setIssueDate", "TodayIn", "TimeLocation", "getValueDate", "getIssueDate", "getCurrency", "Def", "getCurrency", "New", "setCurrency", "getCurrency", "getTotals", "new", "Zero", "Def", "reset", "getTax", "GetRoundingRule", "HasTags", "applyCustomerRates", "calculateComplements", "getComplements", "calculateOrgDocumentRefs", "getPreceding", "calculateLines", "getLines", "getExchangeRates", "calculateLineSum", "getLines", "calculateDiscounts", "getDiscounts", "calculateDiscountSum", "getDiscounts", "Subtract", "calculateCharges", "getCharges", "calculateChargeSum", "getCharges", "Add", "make", "getLines", "append", "getDiscounts", "append", "getCharges", "append", "len", "setTotals", "new", "getCurrency", "GetCountry", "GetTags", "Calculate", "Category", "PreciseAmount", "Subtract", "PreciseSum", "Add", "Add", "len", "getPaymentDetails", "calculateAdvances", "totalAdvance", "Subtract", "CalculateDues", "roundLines", "getLines", "roundDiscounts", "getDiscounts", "roundCharges", "getCharges", "round", "setTotals"] := rfl
 theorem conds_calculate_as_modelled : conds_calculate =
-    ["doc.getIssueDate().IsZero()", "date == nil", "doc.getCurrency() == currency.CodeEmpty || doc.getCurrency().Def() == nil", "r == nil", "t == nil", "tx := doc.getTax(); tx != nil", "tx.PricesInclude != \"\"", "tx.Rounding != \"\"", "rr == \"\"", "doc.HasTags(tax.TagCustomerRates)", "err := calculateComplements(doc.getComplements()); err != nil", "err := calculateLines(doc.getLines(), cur, doc.getExchangeRates(), rr); err != nil", "discounts := calculateDiscountSum(doc.getDiscounts(), cur); discounts != nil", "charges := calculateChargeSum(doc.getCharges(), cur); charges != nil", "l.Total != nil", "len(tls) == 0", "err := tc.Calculate(t.Taxes); err != nil", "ct != nil", "t.Rounding != nil", "len(t.Taxes.Categories) == 0", "pd := doc.getPaymentDetails(); pd != nil", "t.Advances = pd.totalAdvance(zero); t.Advances != nil"] := by decide
+    ["doc.getIssueDate().IsZero()", "date == nil", "doc.getCurrency() == currency.CodeEmpty || doc.getCurrency().Def() == nil", "r == nil", "t == nil", "tx := doc.getTax(); tx != nil", "tx.PricesInclude != \"\"", "tx.Rounding != \"\"", "rr == \"\"", "doc.HasTags(tax.TagCustomerRates)", "err := calculateComplements(doc.getComplements()); err != nil", "err := calculateLines(doc.getLines(), cur, doc.getExchangeRates(), rr); err != nil", "discounts := calculateDiscountSum(doc.getDiscounts(), cur); discounts != nil", "charges := calculateChargeSum(doc.getCharges(), cur); charges != nil", "l.Total != nil", "len(tls) == 0", "err := tc.Calculate(t.Taxes); err != nil", "ct != nil", "t.Rounding != nil", "len(t.Taxes.Categories) == 0", "pd := doc.getPaymentDetails(); pd != nil", "t.Advances = pd.totalAdvance(zero); t.Advances != nil"] := rfl
+theorem stmts_calculate_as_modelled : stmts_calculate =
+    ["r := doc.RegimeDef()", "date := doc.getValueDate()", "id := doc.getIssueDate()", "date = &id", "return validation.Errors{\"currency\": errors.New(\"missing\")}", "cur := doc.getCurrency()", "t := doc.getTotals()", "t = new(Totals)", "zero := cur.Def().Zero()", "tx := doc.getTax()", "pit = tx.PricesInclude", "rr = tx.Rounding", "rr = r.GetRoundingRule()", "err := calculateComplements(doc.getComplements())", "return validation.Errors{\"complements\": err}", "err := calculateLines(doc.getLines(), cur, doc.getExchangeRates(), rr)", "return validation.Errors{\"lines\": err}", "t.Sum = calculateLineSum(doc.getLines(), cur)", "t.Total = t.Sum", "discounts := calculateDiscountSum(doc.getDiscounts(), cur)", "t.Discount = discounts", "t.Total = t.Total.Subtract(*discounts)", "charges := calculateChargeSum(doc.getCharges(), cur)", "t.Charge = charges", "t.Total = t.Total.Add(*charges)", "tls := make([]tax.TaxableLine, 0)", "tls = append(tls, l)", "tls = append(tls, l)", "tls = append(tls, l)", "return nil", "t.Taxes = new(tax.Total)", "tc := &tax.TotalCalculator{ Currency: doc.getCurrency(), Rounding: rr, Country: r.GetCountry(), Tags: doc.GetTags(), Date: *date, Lines: tls, Includes: pit, }", "err := tc.Calculate(t.Taxes)", "return err", "ct := t.Taxes.Category(pit)", "ti := ct.PreciseAmount()", "t.TaxIncluded = &ti", "t.Total = t.Total.Subtract(ti)", "t.Tax = t.Taxes.PreciseSum()", "t.TotalWithTax = t.Total.Add(t.Tax)", "t.Payable = t.TotalWithTax", "t.Payable = t.Payable.Add(*t.Rounding)", "t.Taxes = nil", "pd := doc.getPaymentDetails()", "t.Advances = pd.totalAdvance(zero)", "v := t.Payable.Subtract(*t.Advances)", "t.Due = &v", "return nil"] := rfl
 theorem calls_calculateDiscounts_as_modelled : calls_calculateDiscounts =
-    ["Zero", "Def", "len", "IsZero", "RescaleUp", "Exp", "ApplyRoundingRule", "Of", "ApplyRoundingRule"] := by decide
+    ["Zero", "Def", "len", "IsZero", "RescaleUp", "Exp", "ApplyRoundingRule", "Of", "ApplyRoundingRule"] := rfl
 theorem conds_calculateDiscounts_as_modelled : conds_calculateDiscounts =
-    ["len(lines) == 0", "l.Percent != nil && !l.Percent.IsZero()", "l.Base != nil"] := by decide
+    ["len(lines) == 0", "l.Percent != nil && !l.Percent.IsZero()", "l.Base != nil"] := rfl
+theorem stmts_calculateDiscounts_as_modelled : stmts_calculateDiscounts =
+    ["zero := cur.Def().Zero()", "l.Index = i + 1", "base := sum", "base = l.Base.RescaleUp(zero.Exp() + linePrecisionExtra)", "base = tax.ApplyRoundingRule(rr, cur, base)", "l.Amount = l.Percent.Of(base)", "l.Amount = tax.ApplyRoundingRule(rr, cur, l.Amount)"] := rfl
 theorem calls_calculateCharges_as_modelled : calls_calculateCharges =
-    ["Zero", "Def", "len", "IsZero", "RescaleUp", "Exp", "ApplyRoundingRule", "Of", "ApplyRoundingRule"] := by decide
+    ["Zero", "Def", "len", "IsZero", "RescaleUp", "Exp", "ApplyRoundingRule", "Of", "ApplyRoundingRule"] := rfl
 theorem conds_calculateCharges_as_modelled : conds_calculateCharges =
-    ["len(lines) == 0", "l.Percent != nil && !l.Percent.IsZero()", "l.Base != nil"] := by decide
+    ["len(lines) == 0", "l.Percent != nil && !l.Percent.IsZero()", "l.Base != nil"] := rfl
+theorem stmts_calculateCharges_as_modelled : stmts_calculateCharges =
+    ["zero := cur.Def().Zero()", "l.Index = i + 1", "base := sum", "base = l.Base.RescaleUp(zero.Exp() + linePrecisionExtra)", "base = tax.ApplyRoundingRule(rr, cur, base)", "l.Amount = l.Percent.Of(base)", "l.Amount = tax.ApplyRoundingRule(rr, cur, l.Amount)"] := rfl
 theorem calls_calculateDiscountSum_as_modelled : calls_calculateDiscountSum =
-    ["len", "Zero", "Def", "MatchPrecision", "Add"] := by decide
+    ["len", "Zero", "Def", "MatchPrecision", "Add"] := rfl
 theorem conds_calculateDiscountSum_as_modelled : conds_calculateDiscountSum =
-    ["len(discounts) == 0"] := by decide
+    ["len(discounts) == 0"] := rfl
+theorem stmts_calculateDiscountSum_as_modelled : stmts_calculateDiscountSum =
+    ["return nil", "total := cur.Def().Zero()", "total = total.MatchPrecision(l.Amount)", "total = total.Add(l.Amount)", "return &total"] := rfl
 theorem calls_calculateChargeSum_as_modelled : calls_calculateChargeSum =
-    ["len", "Zero", "Def", "MatchPrecision", "Add"] := by decide
+    ["len", "Zero", "Def", "MatchPrecision", "Add"] := rfl
 theorem conds_calculateChargeSum_as_modelled : conds_calculateChargeSum =
-    ["len(charges) == 0"] := by decide
+    ["len(charges) == 0"] := rfl
+theorem stmts_calculateChargeSum_as_modelled : stmts_calculateChargeSum =
+    ["return nil", "total := cur.Def().Zero()", "total = total.MatchPrecision(l.Amount)", "total = total.Add(l.Amount)", "return &total"] := rfl
 theorem calls_PaymentDetails_calculateAdvances_as_modelled : calls_PaymentDetails_calculateAdvances =
-    ["CalculateFrom", "MatchPrecision"] := by decide
+    ["CalculateFrom", "MatchPrecision"] := rfl
 theorem conds_PaymentDetails_calculateAdvances_as_modelled : conds_PaymentDetails_calculateAdvances =
-    [] := by decide
+    [] := rfl
+theorem stmts_PaymentDetails_calculateAdvances_as_modelled : stmts_PaymentDetails_calculateAdvances =
+    ["a.Amount = a.Amount.MatchPrecision(zero)"] := rfl
 theorem calls_PaymentDetails_totalAdvance_as_modelled : calls_PaymentDetails_totalAdvance =
-    ["len", "MatchPrecision", "Add", "Rescale", "Exp"] := by decide
+    ["len", "MatchPrecision", "Add", "Rescale", "Exp"] := rfl
 theorem conds_PaymentDetails_totalAdvance_as_modelled : conds_PaymentDetails_totalAdvance =
-    ["p == nil || len(p.Advances) == 0"] := by decide
+    ["p == nil || len(p.Advances) == 0"] := rfl
+theorem stmts_PaymentDetails_totalAdvance_as_modelled : stmts_PaymentDetails_totalAdvance =
+    ["return nil", "sum := zero", "sum = sum.MatchPrecision(a.Amount)", "sum = sum.Add(a.Amount)", "a.Amount = a.Amount.Rescale(zero.Exp())", "return &sum"] := rfl
 theorem calls_Terms_CalculateDues_as_modelled : calls_Terms_CalculateDues =
-    ["IsZero", "Of", "Rescale", "Exp"] := by decide
+    ["IsZero", "Of", "Rescale", "Exp"] := rfl
 theorem conds_Terms_CalculateDues_as_modelled : conds_Terms_CalculateDues =
-    ["t == nil", "dd.Percent != nil && !dd.Percent.IsZero()"] := by decide
+    ["t == nil", "dd.Percent != nil && !dd.Percent.IsZero()"] := rfl
+theorem stmts_Terms_CalculateDues_as_modelled : stmts_Terms_CalculateDues =
+    ["dd.Amount = dd.Percent.Of(sum)", "dd.Amount = dd.Amount.Rescale(zero.Exp())"] := rfl
 theorem calls_Advance_CalculateFrom_as_modelled : calls_Advance_CalculateFrom =
-    ["Of"] := by decide
+    ["Of"] := rfl
 theorem conds_Advance_CalculateFrom_as_modelled : conds_Advance_CalculateFrom =
-    ["a.Percent != nil"] := by decide
+    ["a.Percent != nil"] := rfl
+theorem stmts_Advance_CalculateFrom_as_modelled : stmts_Advance_CalculateFrom =
+    ["a.Amount = a.Percent.Of(totalWithTax)"] := rfl
 theorem calls_CategoryTotal_PreciseAmount_as_modelled : calls_CategoryTotal_PreciseAmount =
-    ["IsZero"] := by decide
+    ["IsZero"] := rfl
 theorem conds_CategoryTotal_PreciseAmount_as_modelled : conds_CategoryTotal_PreciseAmount =
-    ["!ct.amount.IsZero()"] := by decide
+    ["!ct.amount.IsZero()"] := rfl
+theorem stmts_CategoryTotal_PreciseAmount_as_modelled : stmts_CategoryTotal_PreciseAmount =
+    ["return ct.amount", "return ct.Amount"] := rfl
 theorem calls_Total_PreciseSum_as_modelled : calls_Total_PreciseSum =
-    ["IsZero"] := by decide
+    ["IsZero"] := rfl
 theorem conds_Total_PreciseSum_as_modelled : conds_Total_PreciseSum =
-    ["!t.sum.IsZero()"] := by decide
+    ["!t.sum.IsZero()"] := rfl
+theorem stmts_Total_PreciseSum_as_modelled : stmts_Total_PreciseSum =
+    ["return t.sum", "return t.Sum"] := rfl
 theorem calls_Total_round_as_modelled : calls_Total_round =
-    ["Rescale", "Exp", "Rescale", "Exp", "Rescale", "Exp", "Rescale", "Exp", "Rescale", "Exp", "Rescale", "Exp"] := by decide
+    ["Rescale", "Exp", "Rescale", "Exp", "Rescale", "Exp", "Rescale", "Exp", "Rescale", "Exp", "Rescale", "Exp"] := rfl
 theorem conds_Total_round_as_modelled : conds_Total_round =
-    ["rt.Surcharge != nil", "ct.Surcharge != nil"] := by decide
+    ["rt.Surcharge != nil", "ct.Surcharge != nil"] := rfl
+theorem stmts_Total_round_as_modelled : stmts_Total_round =
+    ["rt.Amount = rt.Amount.Rescale(zero.Exp())", "rt.Base = rt.Base.Rescale(zero.Exp())", "rt.Surcharge.Amount = rt.Surcharge.Amount.Rescale(zero.Exp())", "ct.amount = ct.Amount", "ct.Amount = ct.Amount.Rescale(zero.Exp())", "*ct.Surcharge = ct.Surcharge.Rescale(zero.Exp())", "t.sum = t.Sum", "t.Sum = t.Sum.Rescale(zero.Exp())"] := rfl
 theorem calls_Totals_round_as_modelled : calls_Totals_round =
-    ["Exp", "Rescale", "Rescale", "Rescale", "Rescale", "Rescale", "Rescale", "Rescale", "Rescale", "Rescale", "Rescale"] := by decide
+    ["Exp", "Rescale", "Rescale", "Rescale", "Rescale", "Rescale", "Rescale", "Rescale", "Rescale", "Rescale", "Rescale"] := rfl
 theorem conds_Totals_round_as_modelled : conds_Totals_round =
-    ["t.Discount != nil", "t.Charge != nil", "t.TaxIncluded != nil", "t.Advances != nil", "t.Due != nil"] := by decide
+    ["t.Discount != nil", "t.Charge != nil", "t.TaxIncluded != nil", "t.Advances != nil", "t.Due != nil"] := rfl
+theorem stmts_Totals_round_as_modelled : stmts_Totals_round =
+    ["e := zero.Exp()", "t.Sum = t.Sum.Rescale(e)", "*t.Discount = t.Discount.Rescale(e)", "*t.Charge = t.Charge.Rescale(e)", "*t.TaxIncluded = t.TaxIncluded.Rescale(e)", "t.Total = t.Total.Rescale(e)", "t.Tax = t.Tax.Rescale(e)", "t.TotalWithTax = t.TotalWithTax.Rescale(e)", "t.Payable = t.Payable.Rescale(e)", "*t.Advances = t.Advances.Rescale(e)", "*t.Due = t.Due.Rescale(e)"] := rfl
 
 end ExpectCalc
 
